@@ -1488,12 +1488,17 @@ func (l *Lang) NilInList(shapes map[string]*Shape) *report.RuleResult {
 						continue
 					}
 					sy, ok := el.V.(Sym)
-					if !ok || sy.Member != "node" {
+					if !ok || (sy.Member != "node" && sy.Member != "token") {
 						continue
 					}
 					name := a.Prod.RHS[sy.I-1]
 					sh := shapes[name]
-					if sh == nil || !sh.MayNil {
+					if sy.Member == "token" {
+						// an optional token (possible_comma, …): a nonterminal of token type with an empty alternative
+						if !l.tokenMayBeNil(name) {
+							continue
+						}
+					} else if sh == nil || !sh.MayNil {
 						continue
 					}
 					res.Count("appends", 1)
@@ -1516,6 +1521,32 @@ func (l *Lang) NilInList(shapes map[string]*Shape) *report.RuleResult {
 		}
 	}
 	return res
+}
+
+// tokenMayBeNil: name is a nonterminal of token type one of whose productions yields nil (an empty alternative
+// that assigns nil or nothing).
+func (l *Lang) tokenMayBeNil(name string) bool {
+	g := l.L.G
+	s := g.Symbols[name]
+	if s == nil || s.Terminal || s.Type != "token" {
+		return false
+	}
+	for n := 1; n < len(l.Actions); n++ {
+		a := l.Actions[n]
+		if a == nil || a.Prod.LHS != name {
+			continue
+		}
+		if len(a.Paths) == 0 {
+			return true
+		}
+		for _, p := range a.Paths {
+			switch p.Result.(type) {
+			case Nil, Stale, nil:
+				return true
+			}
+		}
+	}
+	return false
 }
 
 // ErrorYieldsNil: the error alternatives of the statement nonterminals yield nil.
